@@ -311,13 +311,5 @@ Fixpoint run_ops (w : world) (ops : list sexp) : option (list str) :=
 
 Definition s_badcase : str := S "(badcase)".
 
-(* the entry point: one line in, one line out *)
-Definition run_case (line : str) : str :=
-  match read_line line with
-  | Some ops =>
-    match run_ops [] ops with
-    | Some obs => join (S " ") obs
-    | None => s_badcase
-    end
-  | None => s_badcase
-  end.
+(* file histories: the default kind of case *)
+Definition run_file_case (ops : list sexp) : option (list str) := run_ops [] ops.
